@@ -40,10 +40,14 @@ RsaUnfactoredModulus(e) == ~(KI!KiGt1(e.w.wp) /\ KI!KiGt1(e.w.wq) /\ KI!BnMul(e.
 \* a PKCS#1 structure whose exponent1 / exponent2 / coefficient are not those of (d, p, q): the importer ignores them and recomputes
 ImportIgnoresCrtFields(e) == e.has.crt /\ (Neg(e.off.dp) \/ Neg(e.off.dq) \/ Neg(e.off.qi)
                                            \/ KI!KiRsaCrt(e.off.d.m, e.off.p.m, e.off.q.m, e.off.dp.m, e.off.dq.m, e.off.qi.m, e.w).st # "ok")
+\* a public key (n, e) whose exponent shares a factor with the modulus (certified gcd > 1): the statement is silent (nothing relates e and n but
+\* 1 < e < n without the factors); the library refuses it ("RSA public exponent is not coprime to modulus")
+RsaExponentSharesFactorWithModulus(e) == KI!KiGcdIs(e.off.n.m, e.off.e.m, e.w.gne) /\ e.w.gne.g # <<1>>
 RsaOffered(e) ==
    LET o == e.off IN
    IF Neg(o.n) \/ Neg(o.e) THEN KI!KiNo("a negative component")
-   ELSE IF ~e.has.d THEN KI!KiRsaPublic(o.n.m, o.e.m)
+   ELSE IF ~e.has.d THEN (LET v == KI!KiRsaPublic(o.n.m, o.e.m) IN
+                          IF v.st = "ok" /\ RsaExponentSharesFactorWithModulus(e) THEN KI!KiSoft("gcd(n, e) > 1") ELSE v)
    ELSE IF Neg(o.d) \/ (e.has.pq /\ (Neg(o.p) \/ Neg(o.q))) \/ (e.has.u /\ Neg(o.u)) THEN KI!KiNo("a negative component")
    ELSE IF ~e.has.pq THEN
         (IF KI!KiRsaPublic(o.n.m, o.e.m).st # "ok" THEN KI!KiRsaPublic(o.n.m, o.e.m)
